@@ -1527,6 +1527,12 @@ void sm2_z256_point_add_affine(SM2_Z256_POINT *r, const SM2_Z256_POINT *a, const
 	sm2_z256_modp_mont_mul(S2, S2, in2_y);       /* S2 = Y2*Z1^3 */
 	sm2_z256_modp_sub(R, S2, in1_y);             /* R = S2 - S1 */
 
+	/* equal points: the formulas below degenerate (H = R = 0), double instead */
+	if (sm2_z256_is_zero(H) && sm2_z256_is_zero(R) && !in1infty && !in2infty) {
+		sm2_z256_point_dbl(r, a);
+		return;
+	}
+
 	sm2_z256_modp_mont_sqr(Hsqr, H);             /* H^2 */
 	sm2_z256_modp_mont_sqr(Rsqr, R);             /* R^2 */
 	sm2_z256_modp_mont_mul(Hcub, Hsqr, H);       /* H^3 */
@@ -1602,6 +1608,15 @@ void sm2_z256_point_mul_generator(SM2_Z256_POINT *R, const sm2_z256_t k)
 				sm2_z256_point_copy_affine(R, &g_pre_comp[i][booth - 1]);
 				R_infinity = 0;
 			}
+		} else if (i == 0 && booth != 0) {
+			// the accumulated point can equal the last table entry (k = n - 70: -35G + -35G),
+			// a doubling the mixed addition does not handle, so finish with the complete addition
+			SM2_Z256_POINT Q;
+			sm2_z256_point_copy_affine(&Q, &g_pre_comp[i][(booth > 0 ? booth : -booth) - 1]);
+			if (booth < 0) {
+				sm2_z256_point_neg(&Q, &Q);
+			}
+			sm2_z256_point_add(R, R, &Q);
 		} else {
 			if (booth > 0) {
 				sm2_z256_point_add_affine(R, R, &g_pre_comp[i][booth - 1]);
